@@ -392,9 +392,10 @@ def check_options_are_a_snapshot(repo, rep):
         raise AnalysisError('anchor vanished: YaqlEngine.__init__(options)')
     stores = []
     for st in ast.walk(init.node):
-        if isinstance(st, ast.Assign) and 'options' in model.names_loaded(
-                st.value) and any(isinstance(t, ast.Attribute)
-                                  for t in st.targets):
+        if isinstance(st, ast.Assign) and any(
+                isinstance(t, ast.Attribute) for t in st.targets) and \
+                'options' in model.names_loaded(norm.subst_locals(
+                    init.node, st.value, only_pure=False)):
             stores.append(st)
     if not stores:
         raise AnalysisError('anchor vanished: the options attribute of '
